@@ -118,7 +118,7 @@ Proof.
   assert (Hip : is_in_progress s t = true /\ is_in_progress s' t = true) by (unfold is_in_progress; destruct RT as [_ ->]; now rewrite Hk).
   split; [|split].
   - (* tasks and values *)
-    destruct HT as [T1 T2 T3 T4 T5 T6 T7].
+    destruct HT as [T2 T3 T4 T5 T6 T7].
     assert (Hfw : forall t0 y, task_of s t0 = Some y -> exists z, task_of s' t0 = Some z /\ ti_slots z = ti_slots y /\ ti_branched z = ti_branched y /\ ti_reqby z = ti_reqby y /\ (t0 <> t -> z = y)).
     { intros t0 y Hy. rewrite TK. destruct (N.eqb t0 t) eqn:E; [|exists y; repeat split; auto].
       apply N.eqb_eq in E. subst t0. rewrite Hg in Hy. inversion Hy. subst y. exists tiN. repeat split; auto. intros H. now contradiction H. }
@@ -132,7 +132,6 @@ Proof.
     assert (O2 : forall rq, Oreq2 s' rq -> Oreq2 s rq).
     { apply Oreq2_sub; [intros rq; apply HU|rewrite Ef; apply incl_refl|]. intros t0 z Hz. destruct (Hbw t0 z Hz) as (y & Hy & _ & _ & Hr & _). exists y. split; auto. rewrite Hr. apply incl_refl. }
     constructor.
-    + congruence.
     + congruence.
     + intros k Hc. apply Hcurk in Hc. assert (Hne : k <> t) by (intros ->; destruct Hc as [Hc _]; congruence).
       unfold stored. destruct (RO k Hne) as [-> _]. now apply T3.
@@ -244,7 +243,7 @@ Proof.
   assert (Hip : is_in_progress s t = true /\ is_in_progress s' t = true) by (unfold is_in_progress; rewrite HK, N.eqb_refl, Hk; auto).
   assert (RO : forall k, N.eqb k t = false -> res_of s' k = res_of s k /\ kind_of s' k = kind_of s k) by (intros k E; split; [apply HR|now rewrite HK, E]).
   split; [|split].
-  - destruct HT as [T1 T2 T3 T4 T5 T6 T7].
+  - destruct HT as [T2 T3 T4 T5 T6 T7].
     assert (Hfw : forall t0 y, task_of s t0 = Some y -> exists z, task_of s' t0 = Some z /\ ti_slots z = ti_slots y /\ ti_reqby z = ti_reqby y).
     { intros t0 y Hy. rewrite TK. destruct (N.eqb t0 t) eqn:E; [|eauto]. apply N.eqb_eq in E. subst t0. rewrite Hg in Hy. inversion Hy. subst y. eauto. }
     assert (Hbw : forall t0 z, task_of s' t0 = Some z -> exists y, task_of s t0 = Some y /\ ti_slots z = ti_slots y /\ ti_reqby z = ti_reqby y).
@@ -255,7 +254,6 @@ Proof.
     assert (O2 : forall rq, Oreq2 s' rq -> Oreq2 s rq).
     { apply Oreq2_sub; [intros rq; apply HU|apply incl_refl|]. intros t0 z Hz. destruct (Hbw t0 z Hz) as (y & Hy & _ & Hr). exists y. split; auto. rewrite Hr. apply incl_refl. }
     constructor.
-    + exact T1.
     + exact T2.
     + intros k Hc. rewrite Hst. now apply T3, Hcurk.
     + intros rq Ho. destruct (T4 rq (O2 rq Ho)) as [Hw Hsg]. split; auto.
@@ -308,8 +306,7 @@ Proof.
   assert (HO : forall rq, Oreq2 s' rq <-> Oreq2 s rq).
   { intros rq. unfold Oreq2. rewrite Hf. rewrite <- (HU rq). split; intros [H|[(t0 & y & Hy & H)|H]]; auto; right; left; exists t0, y; [rewrite <- Htk|rewrite Htk]; auto. }
   split; [|split].
-  - destruct HT as [T1 T2 T3 T4 T5 T6 T7]. constructor.
-    + congruence.
+  - destruct HT as [T2 T3 T4 T5 T6 T7]. constructor.
     + congruence.
     + intros k Hc. unfold stored. rewrite HRes. now apply T3, Hcurk.
     + intros rq Ho. apply HO in Ho. destruct (T4 rq Ho) as [Hw Hsg]. split; auto. intros t Hk Hor. destruct (Hw t Hk Hor) as (H1 & ti & Hg & Hl). split; auto. exists ti. now rewrite Htk.
